@@ -129,6 +129,7 @@ package measurement
 //@   loop 6
 //@     mustcall Scale ratio: $arg0 == 1 && $arg1 == st.Unit when sampleType[i] != nil
 //@     invariant ones: forall k int :: 0 <= k && k < $i && sampleType[k] == nil ==> same(ratios[k], 1.0)
+//@     step unit_unified: atiter(6, sampleType[i] != nil) ==> p.SampleType[i].Unit == sampleType[i].Unit
 
 // ---- C15: Label / ScaledLabel — a label is produced by converting exactly the given value from the given unit (to "auto"
 // for Label) and appending the unit the conversion chose; a label is "0" only for the texts 0 and -0 ----
